@@ -51,8 +51,9 @@ theorem reopen_ahead {d : Durable} {l : Log} {xb xf : List Nat} (h : Ahead d l x
       cases hl : (l.blocks ++ xb).getLast? with
       | none => exact absurd (List.getLast?_eq_none_iff.mp hl) hne
       | some t => exact ⟨t, rfl⟩
-    simp only [openStore, Durable.file, Durable.setFile, h.bclean, Bool.false_eq_true, ↓reduceIte, h.bents,
-      hlatest]
+    have hht : d.db.hasTip .B = true := by simp [Db.hasTip, h.btip, htip]
+    simp only [openStore, Durable.file, Durable.setFile, hht, Bool.true_eq_false, and_false,
+      h.bclean, Bool.false_eq_true, ↓reduceIte, h.bents, hlatest]
     have hbt' : btipHeight? { bf := { ents := l.blocks ++ xb, junk := 0, corrupt := false }, ff := d.ff, db := d.db }
         = some (tip, l.blocks.length - 1) := hbt
     simp only [hbt', true_and]
@@ -101,8 +102,9 @@ theorem reopen_ahead {d : Durable} {l : Log} {xb xf : List Nat} (h : Ahead d l x
     have hft : ftipHeight? { bf := d1.bf, ff := { ents := l.filters ++ xf, junk := 0, corrupt := false }, db := d1.db }
         = some (b, l.filters.length - 1) := by
       simp [ftipHeight?, hdb1, hb, hbh]
-    simp only [openStore, Durable.file, Durable.setFile, hff1, h.fclean, Bool.false_eq_true, ↓reduceIte, h.fents,
-      hlatest, hft]
+    have hht : d1.db.hasTip .F = true := by simp [Db.hasTip, hdb1, hb]
+    simp only [openStore, Durable.file, Durable.setFile, hht, Bool.true_eq_false, and_false,
+      hff1, h.fclean, Bool.false_eq_true, ↓reduceIte, h.fents, hlatest, hft]
     have hw : ¬ (Which.F = Which.B ∧ latest = b) := by simp
     simp only [hw, ↓reduceIte]
     have hnot : ¬ (l.filters.length - 1 > (l.filters ++ xf).length - 1) := by simp; omega
